@@ -482,6 +482,13 @@ static void t_exec(const plan_t *p)
         }
         case T_SWAP: {
             int u = -1, j; struct mtree *mu; int n;
+            if (o->a[2] == 7 && (o->a[3] & 3) == 0) {
+                /* swapping a tree with itself changes nothing */
+                if (is_rb(t)) TRY(cstl_rbtree_swap(&rb[t - 2], &rb[t - 2])); else TRY(cstl_bintree_swap(BT(t), BT(t)));
+                if (g_aborted) VIOL(t, "abort", "swap aborted");
+                PROBE("self_swap"); EVT("swap_self", t, 0, 0);
+                break;
+            }
             /* partner of the same kind */
             for (j = 0; j < NT; j++) if (j != t && enabled[j] && is_rb(j) == is_rb(t)) u = j;
             if (u < 0) { EVT("skip", 0, 0, 0); break; }
